@@ -3,3 +3,4 @@ for the VCs, and run natively for replay / spec validation."""
 from .bytesnum import *  # noqa
 from .base58 import b58val, alpha  # noqa
 from . import base58  # noqa
+from . import bip143  # noqa
